@@ -4,6 +4,8 @@ package actionlint
 
 import (
 	"strings"
+
+	"github.com/mattn/go-runewidth"
 )
 
 // HarnessC16Echo: one scalar value of the full skeleton is replaced by L
@@ -75,4 +77,68 @@ func HarnessC16Snippet(L int) {
 	verifCheck(f.Line == line && f.Column == col, "fields-keep-position")
 	h := e.Error()
 	verifCheck(verifNot(verifMsgHasRawNewline(h)), "header-has-line-break")
+}
+
+const verifC16GlobAlphabet = "[]-\\!*?ab\n\r /"
+
+// HarnessC16Glob: the messages of the filter-pattern validators for a fully
+// symbolic pattern (all byte values for small = false, the 13 characters that
+// matter plus both line breaks for small = true) never contain a raw line break.
+func HarnessC16Glob(L int, small bool) {
+	pat := verifSymString("pat", L)
+	if small {
+		for i := 0; i < L; i++ {
+			in := false
+			for k := 0; k < len(verifC16GlobAlphabet); k++ {
+				in = verifOr(in, pat[i] == verifC16GlobAlphabet[k])
+			}
+			verifAssumeNote(in, "C16 glob small alphabet: pattern bytes are among [ ] - \\ ! * ? a b LF CR space /")
+		}
+	}
+	for _, e := range ValidatePathGlob(pat) {
+		verifReach("diagnostic")
+		verifCheck(verifNot(verifMsgHasRawNewline(e.Message)), "raw-line-break-in-message")
+	}
+	for _, e := range ValidateRefGlob(pat) {
+		verifReach("diagnostic")
+		verifCheck(verifNot(verifMsgHasRawNewline(e.Message)), "raw-line-break-in-message")
+	}
+	verifReach("linted")
+}
+
+var verifC16Units = []string{"a", " ", "\t", "\u200b", "\u3042", "\u00e9", "\u0301"}
+
+// HarnessC16SnippetWide: a source line of L units drawn from narrow, blank,
+// zero-width, wide and combining characters; the column is a symbolic 64-bit
+// value. The snippet is produced without a panic, its first line is the source
+// line, and — with the library's display widths taken as given — the caret is
+// preceded by width(prefix) blanks and followed by max(0, width(word) - 1) tildes.
+func HarnessC16SnippetWide(L int) {
+	src := ""
+	for i := 0; i < L; i++ {
+		src += verifC16Units[verifChoose("unit"+string(rune('0'+i)), len(verifC16Units))]
+	}
+	col := verifSymInt("col")
+	e := &Error{Message: "m", Filepath: "f", Line: 1, Column: col, Kind: "k"}
+	f := e.GetTemplateFields([]byte(src + "\n"))
+	verifReach("rendered")
+	parts := strings.SplitN(f.Snippet, "\n", 2)
+	verifCheck(parts[0] == src, "snippet-is-not-the-source-line")
+	if len(parts) == 2 && col >= 1 && col-1 <= len(src) {
+		verifReach("caret")
+		start := col - 1
+		sw := runewidth.StringWidth(src[:start])
+		word := src[start:]
+		if k := strings.IndexAny(word, " \t"); k >= 0 {
+			word = word[:k]
+		}
+		uw := 0
+		for _, c := range word {
+			uw += runewidth.RuneWidth(c)
+		}
+		if uw > 0 {
+			uw--
+		}
+		verifCheck(parts[1] == strings.Repeat(" ", sw)+"^"+strings.Repeat("~", uw), "indicator-differs-from-display-widths")
+	}
 }
